@@ -10,7 +10,7 @@
       consistent v g                 synced, register = g, 16 history bytes, hist_pos < 128, hist_count = popcount(window)
       sparse es                      no prefix of the error pattern es has 25 errors among its last (<=128) bits *)
 From Coq Require Import NArith List Bool.
-From M17 Require Import Bits ConstsPrbs ImplPRBS SpecPRBS LemmasPRBS_A LemmasPRBS_B LemmasPRBS_C LemmasPRBS_D.
+From M17 Require Import Bits ConstsPrbs ImplPRBS SpecPRBS LemmasPRBS_A LemmasPRBS_B LemmasPRBS_C LemmasPRBS_D LemmasPRBS_E.
 Import ListNotations.
 Local Open Scope N_scope.
 
@@ -89,6 +89,27 @@ Theorem c18_sync_flag_within_27 : forall v g, synced v = false -> state v < 512 
 Proof. exact sync_flag_within_27_lemma. Qed.
 Print Assumptions c18_sync_flag_within_27.
 
+(** 6'''. and what happens to such a false lock, so that the statement for EVERY unsynced state (sync_count <= 17, any
+          register, counters, history) is: within 27 + 70 + 27 = 124 error-free bits the validator is freshly and truly locked
+          ([fresh_lock]: synced, register = generator's, sync_count 0, history zeroed, hist_count = hist_pos = 0), and it has
+          counted either no error or exactly 25 spurious ones (the false lock free-runs on a wrong register, the mismatch is
+          itself a phase of the m-sequence, fills the window with 25 errors within 70 bits and unlocks). *)
+Theorem c18_true_lock_from_any_state : forall v g,
+  synced v = false -> state v < 512 -> sync_count v <= 17 -> counters_wf v -> g < 512 ->
+  exists n, (1 <= n <= 124)%nat /\
+    let u := run v (gen_bits g n) in
+    fresh_lock u (gen_state g n) /\ (err_count u = err_count v \/ err_count u = w_errs (err_count v + 25)).
+Proof. exact true_lock_any_state. Qed.
+Print Assumptions c18_true_lock_from_any_state.
+
+(** GF(2)-linearity of the whole validator: fed phase g with error pattern es it behaves as the validator whose register
+    is xor-ed with g, fed es itself (the all-zero reference); only the register differs, by the generator's register *)
+Theorem c18_validator_linear : forall es v g, state v < 512 -> g < 512 ->
+  run v (xor_bits (gen_bits g (length es)) es) =
+  (let w := run (set_state v (N.lxor (state v) g)) es in set_state w (N.lxor (state w) (gen_state g (length es)))).
+Proof. exact run_linear. Qed.
+Print Assumptions c18_validator_linear.
+
 (** 7. counts_exact, from any locked consistent state (so also in mid-stream), for received = sequence xor es, es of ANY
        length whose error density never reaches 25 in the 128-bit window: the state stays consistent (synced, register =
        generator's, hist_count = popcount(window) - hence the size_t decrement never wraps), the window is the last 128
@@ -163,6 +184,14 @@ Proof. vm_compute. repeat split. Qed.
 Example c18_ex_25_errors :
   let v := run (prbs_new zero_history) (gen_bits 1 18 ++ map negb (gen_bits (gen_state 1 18) 25)) in
   synced v = false /\ err_count v = 25 /\ hist_count v = 25.
+Proof. vm_compute. repeat split. Qed.
+(* the false lock of 6': synced after one bit on a wrong register, 25 spurious errors, unlocked at bit 54, truly locked
+   after 81 bits *)
+Example c18_ex_false_lock_recovers :
+  let f n := run false_lock_state (gen_bits 1 n) in
+  synced (f 1%nat) = true /\ synced (f 53%nat) = true /\ synced (f 54%nat) = false /\ err_count (f 54%nat) = 25 /\
+  synced (f 80%nat) = false /\ synced (f 81%nat) = true /\ state (f 81%nat) = gen_state 1 81 /\ err_count (f 81%nat) = 25 /\
+  hist_count (f 81%nat) = 0.
 Proof. vm_compute. repeat split. Qed.
 (* from an INconsistent state (a history flag set while hist_count = 0 - not reachable through the API) the size_t
    decrement does wrap *)
